@@ -79,6 +79,7 @@ THEOREMS = [
     'CpProofs.C07.C07_dispatch_full_fixed',
     'CpProofs.C07.C07_dispatch_live',
     'CpProofs.C07.C07_dispatch_partial_status',
+    'CpProofs.C07.C07_basic',
     'CpProofs.C07.trailerFinish_fixed_ok_or_400',
     'CpProofs.C07.trailerFinish_raises',
     'CpProofs.C07.C07_trailers_full_false',
@@ -650,7 +651,12 @@ def describe_sent(c, obs):
     return ' '.join(parts)
 
 
+class StopStreams(Exception):
+    """Enough requests hung: stop generating (not an error of the harness)."""
+
+
 DIGEST_FLOW = tok.DigestFlow()
+BASIC_FLOW = tok.BasicFlow()
 
 
 def check_request(ctx, c, obs=None):
@@ -658,6 +664,8 @@ def check_request(ctx, c, obs=None):
     ctx.case(c, nontrivial=nontrivial(c), key=case_key(c))
     if c.get('digest') is not None or c['target'] == 'digest':
         DIGEST_FLOW.observe(c, obs)
+    elif c['target'].startswith('basic'):
+        BASIC_FLOW.observe(c, obs)
     ctx.count('target:' + c['target'].split(':')[0])
     ctx.count('status:%s' % obs['status'])
     ctx.count('proto:%s:%s' % (c.get('proto'), c['method'] if c['method'] in ('GET', 'HEAD', 'POST') else 'other'))
@@ -665,6 +673,8 @@ def check_request(ctx, c, obs=None):
         sig = app.signature(obs)
         ctx.count('5xx:' + sig)
         ctx.oracle_fail(c, '%s -> status %s (%s)' % (describe_sent(c, obs), obs['status'], sig), sig)
+        if app.HANG['n'] >= 6 and len(ctx.oracle_failures) >= 1:
+            raise StopStreams()      # the code under test hangs: the verdict has its failing input, stop generating
     elif obs.get('malformed'):
         sig = 'malformed-response:' + obs['malformed'].split(' ')[0]
         ctx.count('malformed:' + sig)
@@ -746,7 +756,8 @@ def _cross_worker(cases):
             obs = run_request(c)
             out.append({'status': obs['status'], 'exc': obs['exc'], 'escaped': obs['escaped'],
                         'malformed': obs.get('malformed'),
-                        'sent': obs.get('sent') if (obs['status'] >= 500 or c.get('digest') is not None) else None,
+                        'sent': obs.get('sent') if (obs['status'] >= 500 or c.get('digest') is not None
+                                                    or c['target'].startswith('basic')) else None,
                         'pre_status': obs.get('pre_status')})
     finally:
         app.teardown()
@@ -1005,7 +1016,7 @@ def corpus_cases():
 
 
 def run_case(ctx, case):
-    if 'tok' in case or 'dinit' in case or 'respenc' in case or 'trailers' in case or 'bind' in case:
+    if 'tok' in case or 'dinit' in case or 'respenc' in case or 'trailers' in case or 'bind' in case or 'unq' in case:
         return tok.replay_case(ctx, case)
     if 'unit' in case:
         desc = tuple(case['unit'])
@@ -1023,10 +1034,12 @@ def run_case(ctx, case):
         return real, (lines[0] if lines else None)
     obs = check_request(ctx, case)
     model = None
-    if case.get('line', '').startswith('dflow') and DIGEST_FLOW.items:
-        out = ctx.model([DIGEST_FLOW.items[-1][2]])
-        model = 'status %s' % out[0] if out else None
-        DIGEST_FLOW.flush(ctx)
+    for flow in (DIGEST_FLOW, BASIC_FLOW):
+        if flow.items:
+            out = ctx.model([flow.items[-1][2]])
+            model = 'status %s' % out[0] if out else None
+            flow.flush(ctx)
+        BASIC_FLOW.flush(ctx)
     return obs, model
 
 
@@ -1071,10 +1084,14 @@ def run(ctx):
         tok.respenc_stream(ctx, ctx.budget(400, 8000))
         tok.bind_stream(ctx, ctx.budget(1500, 40000))
         tok.trailer_stream(ctx, ctx.budget(400, 10000))
+        tok.unq_stream(ctx, ctx.budget(600, 20000))
         tok.dispatch_e2e(ctx, ctx.budget(500, 10000))
         cross_stream(ctx)
         request_stream(ctx, ctx.budget(6000, 400000))
         DIGEST_FLOW.flush(ctx)
+        BASIC_FLOW.flush(ctx)
+    except StopStreams:
+        ctx.note('the code under test hung on %d requests: streams stopped early' % app.HANG['n'])
     finally:
         covmod.stop()
         app.teardown()
@@ -1108,6 +1125,8 @@ def search(ctx, around=None):
                     sig = app.signature(obs)
                     ctx.oracle_fail({'unit': list(desc)}, 'unit %s -> status %s (%s)' % (desc[0], obs['status'], sig), sig)
                     break
+    except StopStreams:
+        pass
     finally:
         app.teardown()
 
